@@ -19,6 +19,10 @@ MUTATORS = {"append", "add", "update", "extend", "insert", "pop", "popitem", "cl
             "setdefault", "sort", "reverse", "appendleft", "popleft", "difference_update", "intersection_update",
             "symmetric_difference_update"}
 
+DUNDER_WRITERS = {"__setattr__", "__delattr__", "__setitem__", "__delitem__", "__iadd__", "__isub__", "__imul__", "__ior__", "__iand__",
+                  "__ixor__", "__itruediv__", "__ifloordiv__", "__imod__", "__ipow__", "__imatmul__", "__ilshift__", "__irshift__"}
+NUMPY_WRITERS = {"put", "place", "copyto", "fill_diagonal", "putmask", "put_along_axis", "at", "shuffle", "seed"}
+
 # constructors / calls that return a fresh object (no aliasing of their arguments' identity as the returned container)
 FRESH_CALLS = {"set", "list", "dict", "tuple", "frozenset", "defaultdict", "Counter", "deque", "sorted", "reversed", "zip", "enumerate",
                "range", "Rule", "Derivation", "Column", "Node", "LocatorMaxHeap", "Integerizer", "WeightedGraph", "frozendict",
@@ -349,6 +353,12 @@ class FrameChecker(ast.NodeVisitor):
                     if not all(self.is_owned_expr(a) for a in node.args):
                         self.elem_owned.discard(recv.id)
                 return
+            if f.attr in DUNDER_WRITERS:
+                # x.__setattr__(..) / object.__setattr__(x, ..) / x.__iadd__(..): writes to the receiver, or to the first argument
+                # when the receiver is a class
+                target = node.args[0] if (isinstance(recv, ast.Name) and (recv.id == "object" or recv.id[:1].isupper()) and node.args) else recv
+                self.store(target, node, f"mutating call .{f.attr}()")
+                return
             spec = self.callees.get(f.attr)
             if spec is not None:
                 # callee writes through some of its arguments / its receiver
@@ -364,6 +374,8 @@ class FrameChecker(ast.NodeVisitor):
                 if f.attr in ("add_arc", "add_I", "add_F", "add_state", "set_arc", "set_I", "set_F", "add_rule"):
                     self.store(recv, node, f"mutating call .{f.attr}()")
                 return
+            if isinstance(recv, ast.Name) and recv.id in ("np", "numpy", "math") and f.attr not in NUMPY_WRITERS:
+                return      # module-level numeric function: reads its arguments only
             self.unclassified.append(Finding(node.lineno, f"call of `{ast.unparse(f)}` has no frame contract"))
         elif isinstance(f, ast.Name):
             if f.id in self.alias and f.id not in self.callees:
